@@ -172,7 +172,7 @@ def _w_dict(res, p):
     def fn(ex):
         ts = _build(terms, names, cons)
         op = ts[0] if as_term else PauliSum(ts)
-        before = [(dict(t._ops), t.coefficient) for t in op.terms]
+        before = [(dict(t.operations), t.coefficient) for t in op.terms]
         d = convert_op_to_dict(op)
         # dictionary structure: one entry per term, ops as {qubit, op}, coefficient parts are the term's own parts
         ok = isinstance(d, dict) and list(d) == ["terms"] and len(d["terms"]) == len(op.terms)
@@ -180,7 +180,7 @@ def _w_dict(res, p):
         if ok:
             for t, td in zip(op.terms, d["terms"]):
                 ops = {(e["qubit"], e["op"]) for e in td["pauli_ops"]}
-                ok = ok and ops == set(t._ops.items()) and len(td["pauli_ops"]) == len(t._ops) and set(td) == {"pauli_ops", "coefficient"}
+                ok = ok and ops == set(t.operations) and len(td["pauli_ops"]) == len(t.operations) and set(td) == {"pauli_ops", "coefficient"}
                 cre, cim = _parts(t.coefficient)
                 cd = td["coefficient"]
                 ok = ok and set(cd) <= {"real", "imag"} and "real" in cd
@@ -195,7 +195,7 @@ def _w_dict(res, p):
         records.append(("dictionary-form", "holds" if ok else "violated", None))
         if ok and claims:
             records.append(("dictionary-parts",) + ex.prove(z3.And(*claims)))
-        after = [(dict(t._ops), t.coefficient) for t in op.terms]
+        after = [(dict(t.operations), t.coefficient) for t in op.terms]
         same = len(before) == len(after) and all(b[0] == a[0] and b[1] is a[1] for b, a in zip(before, after))
         records.append(("argument-unchanged", "holds" if same else "violated", None))
         op2 = convert_dict_to_op(d)
@@ -204,7 +204,7 @@ def _w_dict(res, p):
         cm1, cm2 = PL.cmap_of(op), PL.cmap_of(op2)
         mult = {}
         for t in op.terms:
-            mult[PL.key(t._ops)] = mult.get(PL.key(t._ops), 0) + 1
+            mult[PL.key(dict(t.operations))] = mult.get(PL.key(dict(t.operations)), 0) + 1
         cl = []
         for k in set(cm1) | set(cm2):
             a_re, a_im = _parts(cm1.get(k, 0))
@@ -215,11 +215,11 @@ def _w_dict(res, p):
         # exact preservation where nothing was merged or dropped
         if len(op2.terms) == len(op.terms) and all(v == 1 for v in mult.values()):
             outcomes.add("kept")
-            by_key = {PL.key(t._ops): t for t in op2.terms}
+            by_key = {PL.key(dict(t.operations)): t for t in op2.terms}
             ex_cl = []
             okk = set(by_key) == set(cm1)
             for t in op.terms:
-                t2 = by_key.get(PL.key(t._ops))
+                t2 = by_key.get(PL.key(dict(t.operations)))
                 if t2 is None:
                     okk = False
                     break
@@ -287,7 +287,7 @@ def _exact_terms(a, b):
         out = []
         for t in op.terms:
             c = complex(t.coefficient)
-            out.append((tuple(sorted(t._ops.items())), c.real, c.imag))
+            out.append((tuple(sorted(t.operations)), c.real, c.imag))
         return sorted(out, key=repr)
 
     sa, sb = sig(a), sig(b)
@@ -630,12 +630,12 @@ def replay(data):
                 c = complex(t.coefficient)
                 cd = td.get("coefficient", {})
                 ops = {(e["qubit"], e["op"]) for e in td.get("pauli_ops", [])}
-                if ops != set(t._ops.items()) or cd.get("real") != c.real or cd.get("imag", 0.0) != c.imag or not set(cd) <= {"real", "imag"}:
+                if ops != set(t.operations) or cd.get("real") != c.real or cd.get("imag", 0.0) != c.imag or not set(cd) <= {"real", "imag"}:
                     return True, f"term {t} -> {td}"
             return len(d.get("terms", [])) != len(op.terms) or list(d) != ["terms"], f"dictionary {d}"
         if clause == "argument-unchanged":
             ts2 = _build(p["terms"], {}, [], concrete=vals)
-            return [(t._ops, t.coefficient) for t in ts2] != [(t._ops, t.coefficient) for t in (op.terms)], "argument terms compared with a fresh build"
+            return [(dict(t.operations), t.coefficient) for t in ts2] != [(dict(t.operations), t.coefficient) for t in (op.terms)], "argument terms compared with a fresh build"
         if clause == "parts-preserved-exactly":
             bad = _exact_terms(op if not p.get("as_term") else PauliSum([op]), op2)
             return bool(bad), bad or "terms identical"
